@@ -11,11 +11,15 @@ def run(ctx, replay=None):
         mc = [dict(shape="chain", max_env=2)]
         ex = [dict(shape="chain", max_env=1, flags="m,c,o", faults=True),
               dict(shape="chain", max_env=2, flags="m,c", faults=True),
-              dict(shape="chain", max_env=1, flags="m,c,e", faults=True, env="EditProfile,Expire,Edit,DeleteArt")]
+              dict(shape="chain", max_env=1, flags="m,c,e", faults=True, env="EditProfile,Expire,Edit,DeleteArt"),
+              dict(shape="chain", max_env=1, flags="m,c", faults=True, env="SetIssuer,Edit")]
     else:
         mc = [dict(shape="chain", max_env=3), dict(shape="star", max_env=3)]
         ex = [dict(shape="chain", max_env=2, flags="m,c,o", extra="a", faults=True),
               dict(shape="star", max_env=2, flags="m,c,o", faults=True),
               dict(shape="two", max_env=2, flags="m,c", faults=True),
-              dict(shape="chain", max_env=0, flags="m,c,o,e", extra="a", faults=True, random_walks=6000, walk_len=10)]
+              dict(shape="chain", max_env=0, flags="m,c,o,e", extra="a", faults=True, random_walks=6000, walk_len=10),
+              dict(shape="chain", max_env=2, flags="m,c", faults=True, env="SetIssuer,Edit,DeleteArt,StripKey"),
+              dict(shape="two", max_env=0, flags="m,c,o,e", extra="a", faults=True, random_walks=3000, walk_len=10,
+                   env="Edit,Touch,DeleteArt,Truncate,StripKey,Replace,MakeCsr,EditProfile,Expire,SetIssuer")]
     return repo.run_lifecycle(ctx, "C15", mc, ex, "fault_enumeration", ASSUME, replay)
